@@ -89,6 +89,13 @@ impl WalIndex {
         #[cfg(walrus_verif)]
         crate::wal::verif::io_event("rename");
         fs::rename(&tmp_path, &self.path)?;
+        // The rename itself lives in the directory: until the directory is synced a power loss can
+        // bring the previous index back and already consumed entries would be delivered again.
+        if let Some(parent) = std::path::Path::new(&self.path).parent() {
+            if let Ok(dir) = fs::File::open(parent) {
+                dir.sync_all()?;
+            }
+        }
         Ok(())
     }
 }
